@@ -6,7 +6,7 @@ from collections import defaultdict
 
 from .guards import (Cmp, CallResult, Field, check_guard, prov, op_prov, bool_condition, bool_edge_value, switch_edges,
                      ok_block_after, _all_paths_hit, succ_for_value, follow_const_bool)
-from .lib import fn_key, op_local, place_local, place_fields, rvalue_places, last_seg, strip_generics, AnchorError
+from .lib import fn_key, op_local, op_place, place_local, place_fields, rvalue_places, last_seg, strip_generics, AnchorError
 
 EXPLANATION = (
     "Decides the structural clause of the second sentence of C08: whenever the borrow checker's demand analysis "
@@ -66,7 +66,14 @@ def run(ctx):
     rep = {c.bb for c in calls_named(da, "report_by_location")}
     ctx.ob("R8.2", "drop_aux:kind=VariableNotDropped", len(rep) == 1 and _reports_kind(da, "VariableNotDropped"),
            "the diagnostic reported is VariableNotDropped", da.where())
-    acf = [c for c in da.calls() if "drop_aux::{closure" in c.path]
+    def registers(path):
+        """Is this the routine (a closure of drop_aux or a helper method) that records a potential destructor call?"""
+        g_ = F.fns.get(path)
+        if g_ is None or not g_.body:
+            return False
+        return any(c_.name() == "push" and c_.args and any("potential_destruct_calls" in t_ for t_ in op_prov(h_, c_.args[0], 10))
+                   for h_ in [g_] + F.closures_of(g_) for c_ in h_.calls())
+    acf = [c for c in da.calls() if c.path != da.path and registers(c.path)]
     ok_edges = set()
     drop_sw = None
     for bb, t in da.switches():
@@ -80,11 +87,41 @@ def run(ctx):
            "every path to return passes: droppable Ok edge, a destruct call registration, or report_by_location "
            "(droppable test %s, %d registration sites)" % ("found" if drop_sw is not None else "MISSING", len(acf)), da.where())
     # each registration pairs the right impl with the right function
+    def source_fields(fn, op, depth=10):
+        """Named struct fields the operand's value was read from, following copies, `Ok(..)` payloads, tuples and
+        value-preserving calls (clone / into) - but not the provenance of the struct that holds the field."""
+        out, todo, seen = set(), [(op, 0)], set()
+        while todo:
+            o, d_ = todo.pop()
+            pl = op_place(o)
+            if pl is None or d_ > depth:
+                continue
+            names = [x for x in place_fields(pl) if x and not x.isdigit()]
+            if names:
+                out.add(names[-1])
+                continue
+            l = place_local(pl)
+            if l in seen:
+                continue
+            seen.add(l)
+            for df in fn.defs().get(l, []):
+                if df[0] == "stmt":
+                    rv = df[3]
+                    if rv[0] in ("use", "cast"):
+                        todo.append((rv[1] if rv[0] == "use" else rv[2], d_ + 1))
+                    elif rv[0] == "ref":
+                        todo.append((["c", rv[1]], d_ + 1))
+                    elif rv[0] == "agg":
+                        for x in rv[3]:
+                            todo.append((x, d_ + 1))
+                elif df[0] == "call" and df[2].name() in ("clone", "into", "from", "deref", "as_ref", "to_owned", "borrow") and df[2].args:
+                    todo.append((df[2].args[0], d_ + 1))
+        return out
     pairs = []
     for c in acf:
         toks = set()
         for a in c.args[1:]:
-            toks |= op_prov(da, a, 10)
+            toks |= set("f:" + x for x in source_fields(da, a))
         pairs.append((("destruct_impl" if "f:destruct_impl" in toks else "") + ("|panic_destruct_impl" if "f:panic_destruct_impl" in toks else ""),
                       ("destruct_fn" if "f:destruct_fn" in toks else "") + ("|panic_destruct_fn" if "f:panic_destruct_fn" in toks else ""), c))
     want = {("destruct_impl", "destruct_fn"), ("|panic_destruct_impl", "|panic_destruct_fn")}
